@@ -252,6 +252,26 @@ def run_case(case):
         out.append(("C06:value-depends-on-access-history:%s" % base_of_value(r_cls),
                     "%s: .value gives %r on first access, %r on second access, %r after str()" % (where, first, second, after_str)))
 
+    # ---- reading is not writing: after every public attribute of a response has been read, the frame it was built
+    #      from (also the caller's own reference to it) and its interpretation are what they were
+    if fr is not None:
+        held = r_cls(fr)
+        before = (fr.as_integer, len(fr), fr.error, probe(held))
+        for a in sorted(x for x in dir(held) if not x.startswith("_")):
+            try:
+                getattr(held, a)
+            except Exception:  # noqa - judged elsewhere
+                pass
+        try:
+            rv = held.raw_value
+            after = (rv.as_integer, len(rv), rv.error, probe(held))
+            mine = (fr.as_integer, len(fr), fr.error)
+        except Exception as e:  # noqa
+            after, mine = ("raised", repr(e)), before[:3]
+        if after != before or mine != before[:3]:
+            out.append(("C06:reading-changed-the-response:%s" % name,
+                        "%s: (frame value, length, error flag, .value) were %r; after reading every public attribute once they "
+                        "are %r and the caller's frame is %r" % (where, before, after, mine)))
     # ---- every other way of rendering as text: repr, format, containers, %-formatting
     for how, fn in (("repr()", lambda: repr(r)), ("format()", lambda: format(r)), ("'%r'", lambda: "%r" % (r,)),
                     ("'%s'", lambda: "%s" % (r,)), ("f'{!r}'", lambda: "{!r}".format(r)), ("str([r])", lambda: str([r])),
